@@ -113,7 +113,7 @@ CONTEXTS = [
     ("nested_then", "IF A = 1 THEN IF B = 2 THEN {} ELSE {}"),
     ("colon_after", "B = 2 : {}"),
     ("colon_before", "{} : B = 2"),
-    ("for_body", "FOR I = 1 TO 2 : {} : NEXT I"),
+    ("for_body", "FOR I = 1 TO 2 : {}\n15 NEXT I"),
     ("twice", "{} : {}"),
 ]
 
